@@ -30,6 +30,7 @@ func runC02(c *Ctx) {
 	ruleTryAppend(c, "R2.4")
 	ruleDestructiveWriters(c, "R2.5")
 	ruleLayersPropagateFailure(c, "R2.6")
+	ruleErrorsOfPersistenceChecked(c, "R2.8", "internal/chain", "internal/core")
 	ruleMemDB(c, "R2.7") // the in-memory back-end keeps the newest rounds, ordered and without duplicates
 }
 
